@@ -74,6 +74,9 @@ class Python2VerilogTranspiler:
         
         module = self.getMethodAST('propagate')
         node = createVerilogBody(module.body, '*')
+        # the simulator's wires power up at 0: the output registers get the same initial value
+        from py4hw.rtl_generation import getValidVerilogName
+        node.init.body = [VerilogVariableAssignment(VerilogWire(getValidVerilogName(outp.name)), VerilogConstant(0)) for outp in self.obj.outPorts]
         
         #initExtracter = ExtractInitializers(self.obj)
         #init = initExtracter.visit(node)
@@ -133,6 +136,11 @@ class Python2VerilogTranspiler:
         initExtracter = ExtractInitializers(self.obj)
         
         init = initExtracter.visit(node)
+        
+        # the simulator's wires power up at 0: the output registers get the same initial value
+        from py4hw.rtl_generation import getValidVerilogName
+        for outp in self.obj.outPorts:
+            init.init.body.append(VerilogVariableAssignment(VerilogWire(getValidVerilogName(outp.name)), VerilogConstant(0)))
         
         if hasattr(self.obj, 'initial'):
             # Add the initialization done at the initial method
